@@ -40,10 +40,17 @@ type E1Opts struct {
 	// duration SampleTicks (in its clock).
 	Regularity  bool
 	SampleTicks int64
+	// Focus names the property being decided: violations of other properties are recorded
+	// but do not stop the run, so that one defect which breaks several properties is seen by
+	// the oracle of each of them.
+	Focus string
 }
 
 // E1Result is the outcome of one script.
 type E1Result struct {
+	Fatal                    bool
+	Foreign                  map[string]int
+	ForeignSamples           []string
 	Violations               []Violation
 	Skip                     string // non-empty: scenario left the decided domain (reason)
 	Completed                int
@@ -63,6 +70,20 @@ type E1Result struct {
 	PathCountMax             int
 	Renditions               int
 	DiskRefetchAfterFinalize int
+}
+
+func (r *E1Result) addForeign(prop, f string, a ...any) {
+	if r.Foreign == nil {
+		r.Foreign = map[string]int{}
+	}
+	r.Foreign[prop]++
+	if len(r.ForeignSamples) < 3 {
+		m := fmt.Sprintf(f, a...)
+		if len(m) > 300 {
+			m = m[:300]
+		}
+		r.ForeignSamples = append(r.ForeignSamples, prop+": "+m)
+	}
 }
 
 func (r *E1Result) add(prop, f string, a ...any) {
@@ -185,7 +206,7 @@ func RunE1(sc Script, opt E1Opts) *E1Result {
 		return res
 	}
 	e := &e1{res: res, opt: opt, cfg: cfg, model: model, drv: drv, fetchedBy: map[string]*fetched{}, hist: map[string]*streamHist{},
-		partSeg: map[string]map[uint64]int64{}, partProbed: map[string]map[uint64]bool{}}
+		partSeg: map[string]map[uint64]int64{}, partProbed: map[string]map[uint64]bool{}, probes: map[string]*Pending{}}
 	for _, s := range cfg.Streams() {
 		e.hist[s] = &streamHist{id: s, lastFirst: -1, lastLast: -1, segFacts: map[int64]string{}, partFacts: map[uint64]string{}, decodedTo: -1,
 			pos: map[int]int{}, listedEver: map[string]bool{}, nextBase: map[int]int64{}, carry: map[int][]DUnit{}}
@@ -193,7 +214,7 @@ func RunE1(sc Script, opt E1Opts) *E1Result {
 	defer func() {
 		left := drv.Close()
 		if len(left) > 0 {
-			res.add("C07", "files left in Directory after Close: %v", left)
+			e.viol("C07", "files left in Directory after Close: %v", left)
 		}
 	}()
 
@@ -207,23 +228,23 @@ func RunE1(sc Script, opt E1Opts) *E1Result {
 		if step.ExpectError {
 			res.RejectedForSize = true
 			if err == nil {
-				res.add("C18", "op %d: write would exceed SegmentMaxSize=%d but Write returned nil", i, model.MaxSize)
+				e.viol("C18", "op %d: write would exceed SegmentMaxSize=%d but Write returned nil", i, model.MaxSize)
 			}
 			break // the script ends at the first failing write
 		}
 		if err != nil {
 			if strings.HasPrefix(err.Error(), "PANIC") {
-				res.add("C08", "op %d: %v", i, err)
+				e.viol("C08", "op %d: %v", i, err)
 			} else if strings.Contains(err.Error(), "maximum segment size") {
-				res.add("C18", "op %d: Write rejected for size (%v) although the model's open segment stays within SegmentMaxSize=%d", i, err, model.MaxSize)
+				e.viol("C18", "op %d: Write rejected for size (%v) although the model's open segment stays within SegmentMaxSize=%d", i, err, model.MaxSize)
 			} else {
-				res.add("C01", "op %d: Write failed on a well-formed sequence: %v", i, err)
+				e.viol("C01", "op %d: Write failed on a well-formed sequence: %v", i, err)
 			}
 			break
 		}
 		if step.Cut || (i+1)%opt.ObserveEvery == 0 || i == len(sc.Ops)-1 {
 			e.observe(i, i == len(sc.Ops)-1)
-			if len(res.Violations) > 0 {
+			if res.Fatal {
 				break
 			}
 		}
@@ -231,10 +252,31 @@ func RunE1(sc Script, opt E1Opts) *E1Result {
 	res.Completed = len(model.Segs)
 	res.Decisions = model.Decisions
 	res.ParamChanges = model.ParamVer
-	if len(res.Violations) == 0 && res.Skip == "" && len(model.Segs) >= 3 && e.everAvailable == 0 {
-		res.add("C01", "no playlist was ever served although %d segments are complete", len(model.Segs))
+	if !res.Fatal && res.Skip == "" && len(model.Segs) >= 4 {
+		for _, s := range cfg.Streams() {
+			if e.hist[s].lastX == nil {
+				// every stream is cut at the same instants: its playlist must exist by now
+				e.viol("C01", "the playlist of stream %s was never served although %d segments are complete", s, len(model.Segs))
+				e.viol("C02", "the playlist of stream %s was never served although %d segments are complete: streams are not cut together", s, len(model.Segs))
+				e.viol("C04", "the playlist of stream %s was never served although %d segments are complete: streams do not expose the same sequence numbers", s, len(model.Segs))
+			}
+		}
 	}
 	return res
+}
+
+// viol records a violation. It returns true when the caller must stop what it is doing:
+// always when no focus property is set or the violation belongs to the focus property
+// (then the whole run stops); for violations of other properties only the current check
+// function is left when hard is requested by the caller (see violHard).
+func (e *e1) viol(prop, f string, a ...any) bool {
+	if e.opt.Focus == "" || prop == e.opt.Focus {
+		e.res.add(prop, f, a...)
+		e.res.Fatal = true
+		return true
+	}
+	e.res.addForeign(prop, f, a...)
+	return false
 }
 
 type e1 struct {
@@ -252,6 +294,7 @@ type e1 struct {
 	leadPartDur   map[uint64]int64            // part number -> duration (ns) from the leading stream's decoded media
 	partSeg       map[string]map[uint64]int64 // stream -> part number -> msn of its parent segment
 	partProbed    map[string]map[uint64]bool
+	probes        map[string]*Pending
 }
 
 func (e *e1) playlistPath(stream string) string {
@@ -292,20 +335,19 @@ func (e *e1) fetch(uri, kind, stream string, num uint64, force bool) *fetched {
 	}
 	r := e.drv.GetDirect(uri)
 	if r.Panic != "" {
-		e.res.add("C08", "panic while serving %s: %s", uri, r.Panic)
+		e.viol("C08", "panic while serving %s: %s", uri, r.Panic)
 		return nil
 	}
 	if r.Status != 200 {
-		e.res.add("C05", "listed %s URI %s answered status %d (observation %d)", kind, uri, r.Status, e.obsN)
+		e.viol("C05", "listed %s URI %s answered status %d (observation %d)", kind, uri, r.Status, e.obsN)
 		return nil
 	}
 	if len(r.Body) == 0 {
-		e.res.add("C05", "listed %s URI %s answered 200 with an empty body", kind, uri)
+		e.viol("C05", "listed %s URI %s answered 200 with an empty body", kind, uri)
 		return nil
 	}
 	if !ctOK(kind, e.cfg.Variant, r.Header) {
-		e.res.add("C05", "listed %s URI %s served with content type %q", kind, uri, r.Header["Content-Type"])
-		return nil
+		e.viol("C05", "listed %s URI %s served with content type %q", kind, uri, r.Header["Content-Type"])
 	}
 	h := sha256.Sum256(r.Body)
 	if f != nil {
@@ -315,8 +357,9 @@ func (e *e1) fetch(uri, kind, stream string, num uint64, force bool) *fetched {
 			e.res.DiskRefetchAfterFinalize++
 		}
 		if f.hash != h && kind != "init" {
-			e.res.add("C05", "%s URI %s returned different bytes at observation %d than when first listed (observation %d): %d vs %d bytes", kind, base, e.obsN, f.firstObs, len(r.Body), len(f.body))
-			return nil
+			e.viol("C05", "%s URI %s returned different bytes at observation %d than when first listed (observation %d): %d vs %d bytes", kind, base, e.obsN, f.firstObs, len(r.Body), len(f.body))
+			f.hash = h
+			f.body = r.Body
 		}
 		f.lastObs = e.obsN
 		if kind == "init" {
@@ -359,34 +402,47 @@ func (e *e1) observe(opIdx int, final bool) {
 		if h.lastX != nil {
 			r = e.drv.GetDirect(e.playlistPath(s))
 		} else {
-			r = e.drv.Get(e.playlistPath(s))
+			// one outstanding probe per stream until the playlist exists
+			if e.probes[s] == nil {
+				e.probes[s] = e.drv.Go(e.playlistPath(s))
+			}
+			done, _ := e.probes[s].Settle(20 * time.Second)
+			if !done {
+				continue // not available yet (blocked): nothing to observe
+			}
+			r = e.probes[s].Resp()
+			e.probes[s] = nil
 		}
 		if r.Panic != "" {
-			res.add("C08", "panic while serving the media playlist of %s: %s", s, r.Panic)
-			return
-		}
-		if r.Status == -2 {
-			continue // not available yet (blocked): nothing to observe
+			if e.viol("C08", "panic while serving the media playlist of %s: %s", s, r.Panic) {
+				return
+			}
+			continue
 		}
 		if r.Status != 200 {
-			res.add("C05", "media playlist of %s answered status %d", s, r.Status)
-			return
+			if e.viol("C05", "media playlist of %s answered status %d", s, r.Status) {
+				return
+			}
+			continue
 		}
 		if !ctOK("playlist", e.cfg.Variant, r.Header) {
-			res.add("C05", "media playlist of %s served with content type %q", s, r.Header["Content-Type"])
+			e.viol("C05", "media playlist of %s served with content type %q", s, r.Header["Content-Type"])
 		}
 		text := string(r.Body)
 		if e.opt.OnPlaylist != nil {
 			e.opt.OnPlaylist(s, text)
 		}
 		if errs := m3u8x.Strict(text); len(errs) > 0 {
-			res.add("C15", "playlist served for %s is not grammatical: %s\n%s", s, strings.Join(errs, "; "), text)
-			return
+			if e.viol("C15", "playlist served for %s is not grammatical: %s\n%s", s, strings.Join(errs, "; "), text) {
+				return
+			}
 		}
 		x, err := m3u8x.ParseMedia(text)
 		if err != nil {
-			res.add("C15", "playlist served for %s cannot be read: %v\n%s", s, err, text)
-			return
+			if e.viol("C15", "playlist served for %s cannot be read: %v\n%s", s, err, text) {
+				return
+			}
+			continue
 		}
 		all[s] = &obs{x: x, text: text}
 		e.everAvailable++
@@ -410,7 +466,7 @@ func (e *e1) observe(opIdx int, final bool) {
 	}
 	for _, s := range order {
 		e.checkPlaylist(s, all[s].x, all[s].text, final)
-		if len(res.Violations) > 0 {
+		if res.Fatal {
 			return
 		}
 	}
@@ -421,24 +477,32 @@ func (e *e1) observe(opIdx int, final bool) {
 				continue
 			}
 			a, b := lo.x, all[s].x
+			if a.MediaSeq == nil || b.MediaSeq == nil || a.Target == nil || b.Target == nil {
+				continue
+			}
 			if *a.MediaSeq != *b.MediaSeq || len(a.Segments) != len(b.Segments) {
-				res.add("C04", "streams %s and %s list different windows at the same instant: msn %d (+%d) vs %d (+%d)", lead, s, *a.MediaSeq, len(a.Segments), *b.MediaSeq, len(b.Segments))
-				return
+				if e.viol("C04", "streams %s and %s list different windows at the same instant: msn %d (+%d) vs %d (+%d)", lead, s, *a.MediaSeq, len(a.Segments), *b.MediaSeq, len(b.Segments)) {
+					return
+				}
+				continue
 			}
 			for k := range a.Segments {
 				if a.Segments[k].DurText != b.Segments[k].DurText {
-					res.add("C04", "streams %s and %s list different durations for msn %d: %s vs %s", lead, s, *a.MediaSeq+int64(k), a.Segments[k].DurText, b.Segments[k].DurText)
-					return
+					if e.viol("C04", "streams %s and %s list different durations for msn %d: %s vs %s", lead, s, *a.MediaSeq+int64(k), a.Segments[k].DurText, b.Segments[k].DurText) {
+						return
+					}
 				}
 				da, db := a.Segments[k].DateTimeText, b.Segments[k].DateTimeText
 				if da != "" && db != "" && da != db {
-					res.add("C02", "streams %s and %s were not cut at the same instant: msn %d has date-time %s vs %s", lead, s, *a.MediaSeq+int64(k), da, db)
-					return
+					if e.viol("C02", "streams %s and %s were not cut at the same instant: msn %d has date-time %s vs %s", lead, s, *a.MediaSeq+int64(k), da, db) {
+						return
+					}
 				}
 			}
 			if *a.Target != *b.Target {
-				res.add("C03", "streams %s and %s announce different target durations %d vs %d", lead, s, *a.Target, *b.Target)
-				return
+				if e.viol("C03", "streams %s and %s announce different target durations %d vs %d", lead, s, *a.Target, *b.Target) {
+					return
+				}
 			}
 		}
 	}
@@ -452,8 +516,8 @@ func (e *e1) checkPlaylist(s string, x *m3u8x.XMedia, text string, final bool) {
 	h := e.hist[s]
 	model := e.model
 	ll := cfg.Variant == VariantLL
-	bad := func(prop, f string, a ...any) {
-		res.add(prop, "stream %s, observation %d: %s\n%s", s, e.obsN, fmt.Sprintf(f, a...), text)
+	bad := func(prop, f string, a ...any) bool {
+		return e.viol(prop, "stream %s, observation %d: %s\n%s", s, e.obsN, fmt.Sprintf(f, a...), text)
 	}
 	if x.MediaSeq == nil || x.Target == nil || x.Version == nil {
 		bad("C15", "playlist lacks MEDIA-SEQUENCE / TARGETDURATION / VERSION")
@@ -467,34 +531,40 @@ func (e *e1) checkPlaylist(s string, x *m3u8x.XMedia, text string, final bool) {
 	last := first + int64(len(x.Segments)) - 1
 	// ---- C04 / C18: window ----
 	if len(x.Segments) > cfg.SegmentCount {
-		bad("C04", "%d segments listed, SegmentCount is %d", len(x.Segments), cfg.SegmentCount)
-		return
+		if bad("C04", "%d segments listed, SegmentCount is %d", len(x.Segments), cfg.SegmentCount) {
+			return
+		}
 	}
 	if first < h.lastFirst {
-		bad("C04", "EXT-X-MEDIA-SEQUENCE decreased from %d to %d", h.lastFirst, first)
-		return
+		if bad("C04", "EXT-X-MEDIA-SEQUENCE decreased from %d to %d", h.lastFirst, first) {
+			return
+		}
 	}
 	if last < h.lastLast {
-		bad("C04", "last listed media sequence number decreased from %d to %d", h.lastLast, last)
-		return
+		if bad("C04", "last listed media sequence number decreased from %d to %d", h.lastLast, last) {
+			return
+		}
 	}
 	if h.lastFirst >= 0 && first > h.lastFirst {
 		res.Slides += int(first - h.lastFirst)
 	}
 	wantFirst, wantN := model.Window()
 	if uint64(first) != wantFirst || len(x.Segments) != wantN {
-		bad("C04", "window is msn %d..%d, expected %d..%d after %d completed segments (SegmentCount %d)", first, last, wantFirst, int(wantFirst)+wantN-1, len(model.Segs), cfg.SegmentCount)
-		return
+		if bad("C04", "window is msn %d..%d, expected %d..%d after %d completed segments (SegmentCount %d)", first, last, wantFirst, int(wantFirst)+wantN-1, len(model.Segs), cfg.SegmentCount) {
+			return
+		}
 	}
 	h.lastFirst, h.lastLast = first, last
 
 	mapURI := ""
 	if cfg.Variant != VariantMPEGTS {
 		if x.MapURI == nil {
-			bad("C05", "fMP4 playlist without EXT-X-MAP")
-			return
+			if bad("C05", "fMP4 playlist without EXT-X-MAP") {
+				return
+			}
+		} else {
+			mapURI = *x.MapURI
 		}
-		mapURI = *x.MapURI
 	}
 
 	var prevPart int64 = -1
@@ -502,8 +572,9 @@ func (e *e1) checkPlaylist(s string, x *m3u8x.XMedia, text string, final bool) {
 	checkPartURI := func(p m3u8x.XPart) (uint64, bool) {
 		base, q := stripQuery(p.URI)
 		if ll && strings.Contains(q, "_HLS_") {
-			bad("C06", "part URI %s carries a _HLS_ directive", p.URI)
-			return 0, false
+			if bad("C06", "part URI %s carries a _HLS_ directive", p.URI) {
+				return 0, false
+			}
 		}
 		m := partRe.FindStringSubmatch(base)
 		if m == nil || m[2] != s {
@@ -512,14 +583,16 @@ func (e *e1) checkPlaylist(s string, x *m3u8x.XMedia, text string, final bool) {
 		}
 		n, _ := strconv.ParseUint(m[3], 10, 64)
 		if prevPart >= 0 && int64(n) != prevPart+1 {
-			bad("C04", "part numbers do not increase by one: part%d follows part%d", n, prevPart)
-			return 0, false
+			if bad("C04", "part numbers do not increase by one: part%d follows part%d", n, prevPart) {
+				return 0, false
+			}
 		}
 		prevPart = int64(n)
 		fact := fmt.Sprintf("%s|%s|%v", base, p.DurText, p.Independent)
 		if old, ok := h.partFacts[n]; ok && old != fact {
-			bad("C04", "part %d changed between playlists: %s -> %s", n, old, fact)
-			return 0, false
+			if bad("C04", "part %d changed between playlists: %s -> %s", n, old, fact) {
+				return 0, false
+			}
 		}
 		h.partFacts[n] = fact
 		if e.prefix == "" {
@@ -533,23 +606,25 @@ func (e *e1) checkPlaylist(s string, x *m3u8x.XMedia, text string, final bool) {
 		msn := first + int64(k)
 		fact := fmt.Sprintf("%s|%s|%v", func() string { b, _ := stripQuery(seg.URI); return b }(), seg.DurText, seg.Gap)
 		if old, ok := h.segFacts[msn]; ok && old != fact {
-			bad("C04", "media sequence number %d changed between playlists: %s -> %s", msn, old, fact)
-			return
+			if bad("C04", "media sequence number %d changed between playlists: %s -> %s", msn, old, fact) {
+				return
+			}
 		}
 		h.segFacts[msn] = fact
-		// TARGETDURATION >= EXTINF rounded to nearest (ties may go either way)
-		r := (seg.DurationNS + 499_999_999) / 1_000_000_000
-		if r > maxRounded {
-			maxRounded = r
-		}
-		if r > *x.Target {
-			bad("C03", "EXTINF %s of msn %d rounds to %d > TARGETDURATION %d", seg.DurText, msn, r, *x.Target)
-			return
-		}
 		isGap := ll && uint64(msn) < 7
+		if isGap || model.SegByID(uint64(msn)) == nil {
+			// TARGETDURATION >= EXTINF rounded to nearest; from the text only, so a tie may go either way
+			r := (seg.DurationNS + 499_999_999) / 1_000_000_000
+			if r > *x.Target {
+				if bad("C03", "EXTINF %s of msn %d rounds to %d > TARGETDURATION %d", seg.DurText, msn, r, *x.Target) {
+					return
+				}
+			}
+		}
 		if seg.Gap != isGap {
-			bad("C04", "msn %d gap flag is %v, expected %v", msn, seg.Gap, isGap)
-			return
+			if bad("C04", "msn %d gap flag is %v, expected %v", msn, seg.Gap, isGap) {
+				return
+			}
 		}
 		if isGap {
 			if len(seg.Parts) > 0 {
@@ -559,37 +634,64 @@ func (e *e1) checkPlaylist(s string, x *m3u8x.XMedia, text string, final bool) {
 		}
 		base, q := stripQuery(seg.URI)
 		if ll && strings.Contains(q, "_HLS_") {
-			bad("C06", "segment URI %s carries a _HLS_ directive", seg.URI)
-			return
+			if bad("C06", "segment URI %s carries a _HLS_ directive", seg.URI) {
+				return
+			}
 		}
 		if !sameQuery(q, filterHLS(e.opt.Query)) && !(!ll && sameQuery(q, e.opt.Query)) {
-			bad("C06", "segment URI %s does not carry the request's query %q", seg.URI, e.opt.Query)
-			return
+			if bad("C06", "segment URI %s does not carry the request's query %q", seg.URI, e.opt.Query) {
+				return
+			}
 		}
 		m := segRe.FindStringSubmatch(base)
 		if m == nil || m[2] != s {
-			bad("C04", "segment URI %q does not name a segment of stream %s", seg.URI, s)
-			return
+			if bad("C04", "segment URI %q does not name a segment of stream %s", seg.URI, s) {
+				return
+			}
+			continue
 		}
 		if e.prefix == "" {
 			e.prefix = m[1]
 		}
 		n, _ := strconv.ParseUint(m[3], 10, 64)
 		if int64(n) != msn {
-			bad("C04", "segment URI %s is listed as media sequence number %d", base, msn)
-			return
+			if bad("C04", "segment URI %s is listed as media sequence number %d", base, msn) {
+				return
+			}
 		}
 		ms := model.SegByID(uint64(msn))
 		if ms == nil {
-			bad("C04", "msn %d listed but the model has only %d complete segments", msn, len(model.Segs))
-			return
+			if bad("C04", "msn %d listed but the model has only %d complete segments", msn, len(model.Segs)) {
+				return
+			}
+			continue
+		}
+		// ---- C03: target duration: EXTINF rounded to the nearest integer (half up). The exact
+		// duration decides; when the boundaries are not whole nanoseconds the muxer may see up to
+		// 1 ns less, which matters only at an exact tie.
+		{
+			ex := ratNS(ms.EndTicks-ms.StartTicks, ms.Rate)
+			if !(nsExact(ms.StartTicks, ms.Rate) && nsExact(ms.EndTicks, ms.Rate)) {
+				ex.Sub(ex, big.NewRat(1, 1))
+			}
+			ex.Add(ex, big.NewRat(500_000_000, 1))
+			r := new(big.Int).Quo(ex.Num(), new(big.Int).Mul(ex.Denom(), big.NewInt(1_000_000_000))).Int64()
+			if r > maxRounded {
+				maxRounded = r
+			}
+			if r > *x.Target {
+				if bad("C03", "segment msn %d lasts %s s, which rounds to %d > TARGETDURATION %d", msn, seg.DurText, r, *x.Target) {
+					return
+				}
+			}
 		}
 		// ---- C03: EXTINF, date-time ----
 		exact := ratNS(ms.EndTicks-ms.StartTicks, ms.Rate)
 		diff := new(big.Rat).Sub(exact, big.NewRat(seg.DurationNS, 1))
 		if diff.Abs(diff).Cmp(big.NewRat(10_001, 1)) > 0 {
-			bad("C03", "EXTINF of msn %d is %s, the segment spans %s s of the leading track (ticks %d..%d at %d Hz)", msn, seg.DurText, exact.FloatString(9), ms.StartTicks, ms.EndTicks, ms.Rate)
-			return
+			if bad("C03", "EXTINF of msn %d is %s, the segment spans %s s of the leading track (ticks %d..%d at %d Hz)", msn, seg.DurText, exact.FloatString(9), ms.StartTicks, ms.EndTicks, ms.Rate) {
+				return
+			}
 		}
 		if new(big.Int).Mod(new(big.Int).Mul(big.NewInt(ms.EndTicks-ms.StartTicks), big.NewInt(100_000)), big.NewInt(ms.Rate)).Sign() != 0 {
 			res.NonMultiple = true
@@ -597,33 +699,43 @@ func (e *e1) checkPlaylist(s string, x *m3u8x.XMedia, text string, final bool) {
 		if seg.DateTime != nil {
 			d := ms.NTP.Sub(*seg.DateTime)
 			if d < 0 || d >= time.Millisecond {
-				bad("C03", "EXT-X-PROGRAM-DATE-TIME of msn %d is %s, the segment's first unit was written with %s", msn, seg.DateTimeText, ms.NTP.Format(time.RFC3339Nano))
-				return
+				if bad("C03", "EXT-X-PROGRAM-DATE-TIME of msn %d is %s, the segment's first unit was written with %s", msn, seg.DateTimeText, ms.NTP.Format(time.RFC3339Nano)) {
+					return
+				}
 			}
 		} else if cfg.Variant == VariantMPEGTS {
-			bad("C03", "msn %d has no EXT-X-PROGRAM-DATE-TIME", msn)
-			return
+			if bad("C03", "msn %d has no EXT-X-PROGRAM-DATE-TIME", msn) {
+				return
+			}
 		}
 		// ---- parts placement ----
 		if len(seg.Parts) > 0 {
 			if !ll {
-				bad("C04", "parts listed in a non Low-Latency playlist")
-				return
+				if bad("C04", "parts listed in a non Low-Latency playlist") {
+					return
+				}
 			}
 			if last-msn >= 2 {
-				bad("C04", "parts listed under msn %d, which is not one of the last two segments (last is %d)", msn, last)
-				return
+				if bad("C04", "parts listed under msn %d, which is not one of the last two segments (last is %d)", msn, last) {
+					return
+				}
 			}
 		} else if ll && last-msn < 2 {
-			bad("C04", "no parts listed under msn %d although it is one of the last two segments", msn)
-			return
+			if bad("C04", "no parts listed under msn %d although it is one of the last two segments", msn) {
+				return
+			}
 		}
 		var sum int64
 		var partBytes [][]byte
+		partsBroken := false
 		for pi, p := range seg.Parts {
 			n, ok := checkPartURI(p)
 			if !ok {
-				return
+				if res.Fatal {
+					return
+				}
+				partsBroken = true
+				continue
 			}
 			allParts = append(allParts, p)
 			if e.partSeg[s] == nil {
@@ -635,17 +747,25 @@ func (e *e1) checkPlaylist(s string, x *m3u8x.XMedia, text string, final bool) {
 			sum += p.DurationNS
 			pf := e.fetch(p.URI, "part", s, n, e.obsN%e.opt.RefetchEvery == 0 || final)
 			if pf == nil {
-				return
+				if res.Fatal {
+					return
+				}
+				partsBroken = true
+				continue
 			}
 			partBytes = append(partBytes, pf.body)
 			if !e.checkPartMedia(s, p, n, pf, pi == len(seg.Parts)-1, bad) {
-				return
+				if res.Fatal {
+					return
+				}
+				partsBroken = true
 			}
 		}
-		if len(seg.Parts) > 0 {
+		if len(seg.Parts) > 0 && !partsBroken {
 			if absI(sum-seg.DurationNS) > int64(len(seg.Parts)+1)*10_000 {
-				bad("C03", "part durations of msn %d add up to %d ns, EXTINF is %s", msn, sum, seg.DurText)
-				return
+				if bad("C03", "part durations of msn %d add up to %d ns, EXTINF is %s", msn, sum, seg.DurText) {
+					return
+				}
 			}
 			if len(seg.Parts) > res.MaxParts {
 				res.MaxParts = len(seg.Parts)
@@ -654,12 +774,16 @@ func (e *e1) checkPlaylist(s string, x *m3u8x.XMedia, text string, final bool) {
 		// ---- C05: segment fetch ----
 		sf := e.fetch(seg.URI, "seg", s, n, e.obsN%e.opt.RefetchEvery == 0 || final)
 		if sf == nil {
-			return
-		}
-		if len(partBytes) > 0 {
-			if !bytes.Equal(sf.body, bytes.Join(partBytes, nil)) {
-				bad("C05", "segment msn %d (%d bytes) is not the concatenation of its %d parts (%d bytes)", msn, len(sf.body), len(partBytes), len(bytes.Join(partBytes, nil)))
+			if res.Fatal {
 				return
+			}
+			continue
+		}
+		if len(partBytes) > 0 && !partsBroken {
+			if !bytes.Equal(sf.body, bytes.Join(partBytes, nil)) {
+				if bad("C05", "segment msn %d (%d bytes) is not the concatenation of its %d parts (%d bytes)", msn, len(sf.body), len(partBytes), len(bytes.Join(partBytes, nil))) {
+					return
+				}
 			}
 		}
 		// ---- C01/C02: decode the segment once ----
@@ -677,7 +801,7 @@ func (e *e1) checkPlaylist(s string, x *m3u8x.XMedia, text string, final bool) {
 			}
 			h.decodedTo = msn
 			if !e.opt.NoDecode && (int(msn)%e.opt.DecodeEvery == 0) {
-				if !e.checkSegmentMedia(s, uint64(msn), ms, sf.body, bad) {
+				if !e.checkSegmentMedia(s, uint64(msn), ms, sf.body, bad) && res.Fatal {
 					return
 				}
 			} else {
@@ -687,81 +811,103 @@ func (e *e1) checkPlaylist(s string, x *m3u8x.XMedia, text string, final bool) {
 	}
 	// ---- trailing parts / preload hint (LL) ----
 	if !ll && (len(x.Parts) > 0 || x.Hint != nil || x.PartTargetNS != nil || x.HasServerCtl) {
-		bad("C04", "Low-Latency tags in a non Low-Latency playlist")
-		return
+		if bad("C04", "Low-Latency tags in a non Low-Latency playlist") {
+			return
+		}
 	}
 	if ll {
 		for _, p := range x.Parts {
 			n, ok := checkPartURI(p)
 			if !ok {
-				return
+				if res.Fatal {
+					return
+				}
+				continue
 			}
 			allParts = append(allParts, p)
 			pf := e.fetch(p.URI, "part", s, n, e.obsN%e.opt.RefetchEvery == 0 || final)
 			if pf == nil {
-				return
+				if res.Fatal {
+					return
+				}
+				continue
 			}
-			if !e.checkPartMedia(s, p, n, pf, false, bad) {
+			if !e.checkPartMedia(s, p, n, pf, false, bad) && res.Fatal {
 				return
 			}
 		}
 		if len(x.Parts) > res.MaxParts {
 			res.MaxParts = len(x.Parts)
 		}
-		if x.Hint == nil {
-			bad("C04", "Low-Latency playlist without EXT-X-PRELOAD-HINT")
+	}
+	if ll && x.Hint == nil {
+		if bad("C04", "Low-Latency playlist without EXT-X-PRELOAD-HINT") {
 			return
 		}
+	}
+	if ll && x.Hint != nil {
 		hb, hq := stripQuery(x.Hint.URI)
 		if strings.Contains(hq, "_HLS_") {
-			bad("C06", "preload hint URI %s carries a _HLS_ directive", x.Hint.URI)
-			return
+			if bad("C06", "preload hint URI %s carries a _HLS_ directive", x.Hint.URI) {
+				return
+			}
 		}
 		hm := partRe.FindStringSubmatch(hb)
 		if hm == nil || hm[2] != s || x.Hint.Type != "PART" {
-			bad("C04", "preload hint %q does not name a part of stream %s", x.Hint.URI, s)
+			if bad("C04", "preload hint %q does not name a part of stream %s", x.Hint.URI, s) {
+				return
+			}
+		} else {
+			hn, _ := strconv.ParseInt(hm[3], 10, 64)
+			if prevPart >= 0 && hn != prevPart+1 {
+				if bad("C04", "preload hint names part%d, the last listed part is part%d", hn, prevPart) {
+					return
+				}
+			}
+		}
+	}
+	if ll && (x.PartTargetNS == nil || !x.HasServerCtl) {
+		if bad("C04", "Low-Latency playlist without PART-INF / SERVER-CONTROL") {
 			return
 		}
-		hn, _ := strconv.ParseInt(hm[3], 10, 64)
-		if prevPart >= 0 && hn != prevPart+1 {
-			bad("C04", "preload hint names part%d, the last listed part is part%d", hn, prevPart)
-			return
-		}
-		if x.PartTargetNS == nil || !x.HasServerCtl {
-			bad("C04", "Low-Latency playlist without PART-INF / SERVER-CONTROL")
-			return
-		}
+	}
+	if ll && x.PartTargetNS != nil {
 		pt := *x.PartTargetNS
 		for _, p := range allParts {
 			if p.DurationNS > pt+10_000 {
-				bad("C03", "part %s lasts %s, PART-TARGET is %s", p.URI, p.DurText, x.PartTargetTxt)
-				return
+				if bad("C03", "part %s lasts %s, PART-TARGET is %s", p.URI, p.DurText, x.PartTargetTxt) {
+					return
+				}
 			}
 		}
 		if a, ok := m3u8x.Get(x.ServerControl, "PART-HOLD-BACK"); ok {
 			v, _ := m3u8x.ParseDecimalNS(a.Val)
 			if v+10_000 < 2*pt {
-				bad("C03", "PART-HOLD-BACK %s is less than twice PART-TARGET %s", a.Val, x.PartTargetTxt)
-				return
+				if bad("C03", "PART-HOLD-BACK %s is less than twice PART-TARGET %s", a.Val, x.PartTargetTxt) {
+					return
+				}
 			}
 		} else {
-			bad("C03", "SERVER-CONTROL without PART-HOLD-BACK")
-			return
+			if bad("C03", "SERVER-CONTROL without PART-HOLD-BACK") {
+				return
+			}
 		}
 		if a, ok := m3u8x.Get(x.ServerControl, "CAN-SKIP-UNTIL"); ok {
 			v, _ := m3u8x.ParseDecimalNS(a.Val)
 			if v+10_000 < 6*(*x.Target)*1_000_000_000 {
-				bad("C03", "CAN-SKIP-UNTIL %s is less than six times TARGETDURATION %d", a.Val, *x.Target)
-				return
+				if bad("C03", "CAN-SKIP-UNTIL %s is less than six times TARGETDURATION %d", a.Val, *x.Target) {
+					return
+				}
 			}
 		}
 		if a, ok := m3u8x.Get(x.ServerControl, "CAN-BLOCK-RELOAD"); !ok || a.Val != "YES" {
-			bad("C06", "Low-Latency playlist does not announce CAN-BLOCK-RELOAD=YES")
-			return
+			if bad("C06", "Low-Latency playlist does not announce CAN-BLOCK-RELOAD=YES") {
+				return
+			}
 		}
 	}
 	// ---- C19: regular parts ----
-	if ll && e.opt.Regularity && s == cfg.LeadingStream() {
+	if ll && e.opt.Regularity && s == cfg.LeadingStream() && x.PartTargetNS != nil {
 		var nonFinal []m3u8x.XPart
 		for _, seg := range x.Segments {
 			if len(seg.Parts) > 1 {
@@ -779,26 +925,31 @@ func (e *e1) checkPlaylist(s string, x *m3u8x.XMedia, text string, final bool) {
 				h.nonFinalD = d
 			}
 			if absI(d-h.nonFinalD) > 10_000 {
-				bad("C19", "non-final part %s lasts %s, earlier non-final parts lasted %d ns (constant sample duration %d ticks)", p.URI, p.DurText, h.nonFinalD, e.opt.SampleTicks)
-				return
+				if bad("C19", "non-final part %s lasts %s, earlier non-final parts lasted %d ns (constant sample duration %d ticks)", p.URI, p.DurText, h.nonFinalD, e.opt.SampleTicks) {
+					return
+				}
 			}
 			if d > pt+10_000 || float64(d)+10_000 < 0.85*float64(pt) {
-				bad("C19", "non-final part %s lasts %s, outside 85%%..100%% of PART-TARGET %s", p.URI, p.DurText, x.PartTargetTxt)
-				return
+				if bad("C19", "non-final part %s lasts %s, outside 85%%..100%% of PART-TARGET %s", p.URI, p.DurText, x.PartTargetTxt) {
+					return
+				}
 			}
 			if d+10_000 < cfg.PartMinDuration {
-				bad("C19", "non-final part %s lasts %s, less than PartMinDuration %d ns", p.URI, p.DurText, cfg.PartMinDuration)
-				return
+				if bad("C19", "non-final part %s lasts %s, less than PartMinDuration %d ns", p.URI, p.DurText, cfg.PartMinDuration) {
+					return
+				}
 			}
 			if lim := 2*maxI64(cfg.PartMinDuration, sampleNS) + sampleNS; d-10_000 >= lim {
-				bad("C19", "non-final part %s lasts %s, not less than 2*max(PartMinDuration, sample) + sample = %d ns", p.URI, p.DurText, lim)
-				return
+				if bad("C19", "non-final part %s lasts %s, not less than 2*max(PartMinDuration, sample) + sample = %d ns", p.URI, p.DurText, lim) {
+					return
+				}
 			}
 		}
 		if len(nonFinal) > 0 {
 			if h.lastHadNonFinal && h.lastPartTarget != pt {
-				bad("C19", "PART-TARGET changed from %d to %d ns between two playlists that both list a non-final part", h.lastPartTarget, pt)
-				return
+				if bad("C19", "PART-TARGET changed from %d to %d ns between two playlists that both list a non-final part", h.lastPartTarget, pt) {
+					return
+				}
 			}
 			h.lastPartTarget = pt
 		}
@@ -806,8 +957,9 @@ func (e *e1) checkPlaylist(s string, x *m3u8x.XMedia, text string, final bool) {
 	}
 	// ---- C03: target duration never decreases ----
 	if *x.Target < h.lastTarget {
-		bad("C03", "TARGETDURATION decreased from %d to %d", h.lastTarget, *x.Target)
-		return
+		if bad("C03", "TARGETDURATION decreased from %d to %d", h.lastTarget, *x.Target) {
+			return
+		}
 	}
 	if h.lastTarget > 0 && *x.Target > h.lastTarget {
 		res.TargetGrew = true
@@ -815,7 +967,7 @@ func (e *e1) checkPlaylist(s string, x *m3u8x.XMedia, text string, final bool) {
 	h.lastTarget = *x.Target
 	// ---- init ----
 	if mapURI != "" {
-		if !e.checkInit(s, mapURI, bad) {
+		if !e.checkInit(s, mapURI, bad) && res.Fatal {
 			return
 		}
 	}
@@ -879,7 +1031,7 @@ func (e *e1) tracksOfStream(s string) []int {
 }
 
 // checkSegmentMedia decodes a complete segment and compares it with the model (C01, C02).
-func (e *e1) checkSegmentMedia(s string, id uint64, ms *MSeg, body []byte, bad func(string, string, ...any)) bool {
+func (e *e1) checkSegmentMedia(s string, id uint64, ms *MSeg, body []byte, bad func(string, string, ...any) bool) bool {
 	cfg := e.cfg
 	h := e.hist[s]
 	tracks := e.tracksOfStream(s)
@@ -891,16 +1043,19 @@ func (e *e1) checkSegmentMedia(s string, id uint64, ms *MSeg, body []byte, bad f
 			return false
 		}
 		if len(info.DecodeErrs) > 0 {
-			bad("C01", "segment %d: MPEG-TS decode errors: %v", id, info.DecodeErrs)
-			return false
+			if bad("C01", "segment %d: MPEG-TS decode errors: %v", id, info.DecodeErrs) {
+				return false
+			}
 		}
 		if !info.PATFirst {
-			bad("C02", "segment %d does not start with PAT and PMT", id)
-			return false
+			if bad("C02", "segment %d does not start with PAT and PMT", id) {
+				return false
+			}
 		}
 		if len(info.Codecs) != len(cfg.Tracks) {
-			bad("C02", "segment %d declares %d tracks, the muxer has %d", id, len(info.Codecs), len(cfg.Tracks))
-			return false
+			if bad("C02", "segment %d declares %d tracks, the muxer has %d", id, len(info.Codecs), len(cfg.Tracks)) {
+				return false
+			}
 		}
 		per := map[int][]DUnit{}
 		firstLeadSeen := false
@@ -916,16 +1071,20 @@ func (e *e1) checkSegmentMedia(s string, id uint64, ms *MSeg, body []byte, bad f
 			e.res.UnitsDecoded += len(got)
 			for k := 0; k < len(want) || k < len(got); k++ {
 				if k >= len(got) {
-					bad("C01", "segment %d track %d: unit %d of %d missing: %s", id, ti, k, len(want), describe(bytes.Join(want[k].Parts, nil)))
-					return false
+					if bad("C01", "segment %d track %d: unit %d of %d missing: %s", id, ti, k, len(want), describe(bytes.Join(want[k].Parts, nil))) {
+						return false
+					}
+					break
 				}
 				if k >= len(want) {
 					prop := "C01"
 					if ti == lead {
 						prop = "C02"
 					}
-					bad(prop, "segment %d track %d holds %d units, expected %d; extra: %s", id, ti, len(got), len(want), describe(bytes.Join(got[k].Parts, nil)))
-					return false
+					if bad(prop, "segment %d track %d holds %d units, expected %d; extra: %s", id, ti, len(got), len(want), describe(bytes.Join(got[k].Parts, nil))) {
+						return false
+					}
+					break
 				}
 				w, g := want[k], got[k]
 				if len(w.Parts) != len(g.Parts) || !bytes.Equal(bytes.Join(w.Parts, []byte{0xff, 0, 0xff}), bytes.Join(g.Parts, []byte{0xff, 0, 0xff})) {
@@ -933,8 +1092,9 @@ func (e *e1) checkSegmentMedia(s string, id uint64, ms *MSeg, body []byte, bad f
 					if k == 0 && ti == lead {
 						prop = "C02"
 					}
-					bad(prop, "segment %d track %d unit %d: got %s (%d parts), expected %s (%d parts)", id, ti, k, describe(bytes.Join(g.Parts, nil)), len(g.Parts), describe(bytes.Join(w.Parts, nil)), len(w.Parts))
-					return false
+					if bad(prop, "segment %d track %d unit %d: got %s (%d parts), expected %s (%d parts)", id, ti, k, describe(bytes.Join(g.Parts, nil)), len(g.Parts), describe(bytes.Join(w.Parts, nil)), len(w.Parts)) {
+						return false
+					}
 				}
 				rate := int64(cfg.Tracks[ti].ClockRate())
 				wd := truncDiv(w.DTS*90000, rate)
@@ -944,8 +1104,9 @@ func (e *e1) checkSegmentMedia(s string, id uint64, ms *MSeg, body []byte, bad f
 					tol = 1
 				}
 				if absI(mod33(g.DTS)-mod33(wd)) > tol || absI(mod33(g.DTS+g.PTSOff)-mod33(wp)) > tol {
-					bad("C01", "segment %d track %d unit %d (%s): dts/pts %d/%d, expected %d/%d (90 kHz, mod 2^33)", id, ti, k, describe(bytes.Join(w.Parts, nil)), g.DTS, g.DTS+g.PTSOff, mod33(wd), mod33(wp))
-					return false
+					if bad("C01", "segment %d track %d unit %d (%s): dts/pts %d/%d, expected %d/%d (90 kHz, mod 2^33)", id, ti, k, describe(bytes.Join(w.Parts, nil)), g.DTS, g.DTS+g.PTSOff, mod33(wd), mod33(wp)) {
+						return false
+					}
 				}
 			}
 		}
@@ -953,8 +1114,9 @@ func (e *e1) checkSegmentMedia(s string, id uint64, ms *MSeg, body []byte, bad f
 		if cfg.Tracks[lead].IsVideo() {
 			got := per[lead]
 			if len(got) == 0 {
-				bad("C02", "segment %d holds no unit of the leading track", id)
-				return false
+				if bad("C02", "segment %d holds no unit of the leading track", id) {
+					return false
+				}
 			}
 			idr := false
 			for _, n := range got[0].Parts {
@@ -963,8 +1125,9 @@ func (e *e1) checkSegmentMedia(s string, id uint64, ms *MSeg, body []byte, bad f
 				}
 			}
 			if !idr {
-				bad("C02", "segment %d does not begin with a random-access unit of the leading track", id)
-				return false
+				if bad("C02", "segment %d does not begin with a random-access unit of the leading track", id) {
+					return false
+				}
 			}
 		}
 		return true
@@ -975,9 +1138,10 @@ func (e *e1) checkSegmentMedia(s string, id uint64, ms *MSeg, body []byte, bad f
 		bad("C01", "segment %d does not decode as fMP4: %v", id, err)
 		return false
 	}
-	if len(frags) == 0 {
-		bad("C01", "segment %d holds no fragment", id)
-		return false
+	if len(frags) == 0 { // hard
+		if bad("C01", "segment %d holds no fragment", id) {
+			return false
+		}
 	}
 	per := map[int][]DUnit{}
 	for _, u := range units {
@@ -987,8 +1151,9 @@ func (e *e1) checkSegmentMedia(s string, id uint64, ms *MSeg, body []byte, bad f
 	for _, f := range frags {
 		for _, ft := range f.Tracks {
 			if nb, ok := h.nextBase[ft.ID]; ok && nb != int64(ft.BaseTime) {
-				bad("C01", "segment %d fragment %d track %d: base time %d, previous fragment ended at %d", id, f.Seq, ft.ID, ft.BaseTime, nb)
-				return false
+				if bad("C01", "segment %d fragment %d track %d: base time %d, previous fragment ended at %d", id, f.Seq, ft.ID, ft.BaseTime, nb) {
+					return false
+				}
 			}
 			h.nextBase[ft.ID] = int64(ft.BaseTime) + int64(ft.DurSum)
 		}
@@ -1000,16 +1165,20 @@ func (e *e1) checkSegmentMedia(s string, id uint64, ms *MSeg, body []byte, bad f
 		e.res.UnitsDecoded += len(got)
 		for k := 0; k < len(want) || k < len(got); k++ {
 			if k >= len(got) {
-				bad("C01", "segment %d track %d: unit %d of %d missing: %s", id, ti, k, len(want), describe(want[k].Payload))
-				return false
+				if bad("C01", "segment %d track %d: unit %d of %d missing: %s", id, ti, k, len(want), describe(want[k].Payload)) {
+					return false
+				}
+				break
 			}
 			if k >= len(want) {
 				prop := "C01"
 				if ti == lead {
 					prop = "C02"
 				}
-				bad(prop, "segment %d track %d holds %d units, expected %d; extra: %s", id, ti, len(got), len(want), describe(got[k].Payload))
-				return false
+				if bad(prop, "segment %d track %d holds %d units, expected %d; extra: %s", id, ti, len(got), len(want), describe(got[k].Payload)) {
+					return false
+				}
+				break
 			}
 			w, g := want[k], got[k]
 			if !bytes.Equal(w.Payload, g.Payload) {
@@ -1017,12 +1186,14 @@ func (e *e1) checkSegmentMedia(s string, id uint64, ms *MSeg, body []byte, bad f
 				if k == 0 && ti == lead {
 					prop = "C02"
 				}
-				bad(prop, "segment %d track %d unit %d: got %s, expected %s", id, ti, k, describe(g.Payload), describe(w.Payload))
-				return false
+				if bad(prop, "segment %d track %d unit %d: got %s, expected %s", id, ti, k, describe(g.Payload), describe(w.Payload)) {
+					return false
+				}
 			}
 			if g.DTS != w.DTS || g.PTSOff != w.PTSOff || g.Dur != w.Dur || g.Sync != w.Sync {
-				bad("C01", "segment %d track %d unit %d (%s): dts/ptsoff/dur/sync %d/%d/%d/%v, expected %d/%d/%d/%v", id, ti, k, describe(w.Payload), g.DTS, g.PTSOff, g.Dur, g.Sync, w.DTS, w.PTSOff, w.Dur, w.Sync)
-				return false
+				if bad("C01", "segment %d track %d unit %d (%s): dts/ptsoff/dur/sync %d/%d/%d/%v, expected %d/%d/%d/%v", id, ti, k, describe(w.Payload), g.DTS, g.PTSOff, g.Dur, g.Sync, w.DTS, w.PTSOff, w.Dur, w.Sync) {
+					return false
+				}
 			}
 		}
 	}
@@ -1034,20 +1205,23 @@ func (e *e1) checkSegmentMedia(s string, id uint64, ms *MSeg, body []byte, bad f
 			}
 		}
 		if !found {
-			bad("C01", "segment %d holds samples of unknown track id %d", id, tid)
-			return false
+			if bad("C01", "segment %d holds samples of unknown track id %d", id, tid) {
+				return false
+			}
 		}
 	}
 	if s == cfg.LeadingStream() {
 		_, ltid := cfg.StreamOf(lead)
 		got := per[ltid]
 		if len(got) == 0 {
-			bad("C02", "segment %d holds no unit of the leading track", id)
-			return false
+			if bad("C02", "segment %d holds no unit of the leading track", id) {
+				return false
+			}
 		}
 		if !got[0].Sync {
-			bad("C02", "segment %d does not begin with a random-access unit of the leading track (%s)", id, describe(got[0].Payload))
-			return false
+			if bad("C02", "segment %d does not begin with a random-access unit of the leading track (%s)", id, describe(got[0].Payload)) {
+				return false
+			}
 		}
 	}
 	return true
@@ -1062,7 +1236,7 @@ func mod33(v int64) int64 {
 }
 
 // checkPartMedia decodes a part: sequence number, duration against the media (C03, C05).
-func (e *e1) checkPartMedia(s string, p m3u8x.XPart, n uint64, pf *fetched, lastOfSegment bool, bad func(string, string, ...any)) bool {
+func (e *e1) checkPartMedia(s string, p m3u8x.XPart, n uint64, pf *fetched, lastOfSegment bool, bad func(string, string, ...any) bool) bool {
 	if pf.refetches > 0 && pf.kind == "part" && pf.body == nil {
 		return true
 	}
@@ -1076,8 +1250,9 @@ func (e *e1) checkPartMedia(s string, p m3u8x.XPart, n uint64, pf *fetched, last
 		return false
 	}
 	if uint64(frags[0].Seq) != n&0xffffffff {
-		bad("C05", "part %d carries fragment sequence number %d", n, frags[0].Seq)
-		return false
+		if bad("C05", "part %d carries fragment sequence number %d", n, frags[0].Seq) {
+			return false
+		}
 	}
 	lead := e.cfg.LeadingTrack()
 	ls, ltid := e.cfg.StreamOf(lead)
@@ -1104,27 +1279,30 @@ func (e *e1) checkPartMedia(s string, p m3u8x.XPart, n uint64, pf *fetched, last
 		exact := ratNS(sum, rate)
 		d := new(big.Rat).Sub(exact, big.NewRat(p.DurationNS, 1))
 		if d.Abs(d).Cmp(big.NewRat(10_002, 1)) > 0 {
-			bad("C03", "part %d DURATION is %s, its media spans %s s of the leading track", n, p.DurText, exact.FloatString(9))
-			return false
+			if bad("C03", "part %d DURATION is %s, its media spans %s s of the leading track", n, p.DurText, exact.FloatString(9)) {
+				return false
+			}
 		}
 		e.leadPartDur[n] = p.DurationNS
 		_ = indep
 	} else if d, ok := e.leadPartDur[n]; ok {
 		if absI(d-p.DurationNS) > 10_000 {
-			bad("C03", "part %d DURATION is %s in stream %s but %d ns in the leading stream", n, p.DurText, s, d)
-			return false
+			if bad("C03", "part %d DURATION is %s in stream %s but %d ns in the leading stream", n, p.DurText, s, d) {
+				return false
+			}
 		}
 	}
 	return true
 }
 
 // checkInit fetches and checks the init file (C02 (4), C05).
-func (e *e1) checkInit(s, mapURI string, bad func(string, string, ...any)) bool {
+func (e *e1) checkInit(s, mapURI string, bad func(string, string, ...any) bool) bool {
 	cfg := e.cfg
 	base, q := stripQuery(mapURI)
 	if e.cfg.Variant == VariantLL && strings.Contains(q, "_HLS_") {
-		bad("C06", "EXT-X-MAP URI %s carries a _HLS_ directive", mapURI)
-		return false
+		if bad("C06", "EXT-X-MAP URI %s carries a _HLS_ directive", mapURI) {
+			return false
+		}
 	}
 	m := initRe.FindStringSubmatch(base)
 	if m == nil || m[2] != s {
@@ -1149,12 +1327,14 @@ func (e *e1) checkInit(s, mapURI string, bad func(string, string, ...any)) bool 
 		it := init.Tracks[k]
 		spec := cfg.Tracks[ti]
 		if it.ID != k+1 {
-			bad("C02", "init track %d has id %d", k, it.ID)
-			return false
+			if bad("C02", "init track %d has id %d", k, it.ID) {
+				return false
+			}
 		}
 		if int(it.TimeScale) != spec.ClockRate() {
-			bad("C02", "init track %d has timescale %d, expected %d", k, it.TimeScale, spec.ClockRate())
-			return false
+			if bad("C02", "init track %d has timescale %d, expected %d", k, it.TimeScale, spec.ClockRate()) {
+				return false
+			}
 		}
 		if !codecMatches(spec.Codec, it.Codec) {
 			bad("C02", "init track %d declares codec %T for a %s track", k, it.Codec, spec.Codec)
@@ -1220,7 +1400,7 @@ func normParams(codec string, p ParamSet) ParamSet {
 // checkInitParams: once the first complete segment encoded with changed parameters is listed
 // and no further change has been seen, the init must carry the new parameters; before that,
 // any parameter set the muxer has seen is accepted.
-func (e *e1) checkInitParams(ti int, c fmp4.Codec, bad func(string, string, ...any)) bool {
+func (e *e1) checkInitParams(ti int, c fmp4.Codec, bad func(string, string, ...any) bool) bool {
 	model := e.model
 	codec := e.cfg.Tracks[ti].Codec
 	got := paramSetOfInit(c)
@@ -1237,8 +1417,9 @@ func (e *e1) checkInitParams(ti int, c fmp4.Codec, bad func(string, string, ...a
 	}
 	if settled {
 		if paramsDiffer(codec, got, cur) {
-			bad("C02", "init file carries parameters %s, the muxer's current parameters are %s (version %d, settled)", fmtParams(codec, got), fmtParams(codec, cur), model.ParamVer)
-			return false
+			if bad("C02", "init file carries parameters %s, the muxer's current parameters are %s (version %d, settled)", fmtParams(codec, got), fmtParams(codec, cur), model.ParamVer) {
+				return false
+			}
 		}
 		return true
 	}
@@ -1251,8 +1432,10 @@ func (e *e1) checkInitParams(ti int, c fmp4.Codec, bad func(string, string, ...a
 			return true
 		}
 	}
-	bad("C02", "init file carries parameters %s that were never written", fmtParams(codec, got))
-	return false
+	if bad("C02", "init file carries parameters %s that were never written", fmtParams(codec, got)) {
+		return false
+	}
+	return true
 }
 
 func fmtParams(codec string, p ParamSet) string {
@@ -1263,7 +1446,7 @@ func fmtParams(codec string, p ParamSet) string {
 }
 
 // probe checks that unknown and expired URIs do not return media (C05, C18).
-func (e *e1) probe(s string, x *m3u8x.XMedia, bad func(string, string, ...any)) {
+func (e *e1) probe(s string, x *m3u8x.XMedia, bad func(string, string, ...any) bool) {
 	if e.prefix == "" {
 		return
 	}
@@ -1322,16 +1505,18 @@ func (e *e1) probe(s string, x *m3u8x.XMedia, bad func(string, string, ...any)) 
 	for _, u := range urls {
 		r := e.drv.GetDirect(u)
 		if r.Panic != "" {
-			bad("C08", "panic while serving %s: %s", u, r.Panic)
-			return
+			if bad("C08", "panic while serving %s: %s", u, r.Panic) {
+				return
+			}
 		}
 		if r.Status == 200 && len(r.Body) > 0 {
 			prop := "C05"
 			if strings.Contains(u, fmt.Sprintf("seg%d", first-1)) {
 				prop = "C18"
 			}
-			bad(prop, "URI %s, which is unknown or has left the window (msn %d..%d), still returns %d bytes", u, first, last, len(r.Body))
-			return
+			if bad(prop, "URI %s, which is unknown or has left the window (msn %d..%d), still returns %d bytes", u, first, last, len(r.Body)) {
+				return
+			}
 		}
 	}
 }
